@@ -42,7 +42,10 @@ pub fn sol_log(_m: &str) {}
 
 /// `format!` returns an empty string (error messages are not the subject of any property).
 pub fn fmt_format(_a: std::fmt::Arguments<'_>) -> String {
-    String::new()
+    // not `String::new()`: CBMC sometimes reads the zero capacity of the empty RawVec constant as
+    // an unconstrained value and then reports spurious `__rust_dealloc` failures when the string
+    // is dropped; a real one-byte allocation avoids that.
+    String::with_capacity(1)
 }
 
 #[cfg(vh_native)]
